@@ -320,8 +320,11 @@ class Ordering(T):
 
 
 class Write(T):
+    def __init__(self, named=False):
+        self.named = named        # spelled with the method's named lifetime: &'a mut DiplomatWrite
+
     def rust(self, lt=None):
-        return "&mut DiplomatWrite"
+        return "&'a mut DiplomatWrite" if self.named else "&mut DiplomatWrite"
 
 
 class Callback(T):
@@ -428,7 +431,7 @@ class Module:
         return "\n".join(out)
 
     def emit_method(self, m):
-        uses_a = (m.ret is not None and m.ret.borrowed)
+        uses_a = (m.ret is not None and m.ret.borrowed) or any(isinstance(t, Write) and t.named for _, t in m.params)
         lt = "'a" if uses_a else None
         gen = "<'a>" if uses_a else ""
         ps = []
@@ -614,6 +617,13 @@ def m0_core():
     for nm, t in (("u8", P("u8")), ("i64", P("i64")), ("f64", P("f64")), ("bool", P("bool")), ("char", P("DiplomatChar")), ("en", EnumT("En")), ("nz", EnumT("Nz")), ("st", StructT("Inner")), ("pad", StructT("Pad"))):
         m.method("Op", "opt_std_%s" % nm, None, [("x", Opt(t, "std")), ("s", P("u8"))], Opt(t, "std"))
         m.method("Op", "opt_dip_%s" % nm, None, [("x", Opt(t, "diplomat")), ("s", P("u8"))], Opt(t, "diplomat"))
+    # every remaining primitive as an option payload, in parameter, field and return position
+    m.add(StructDef("OptPrims", [("a", Opt(P("i8"), "diplomat")), ("b", Opt(P("u16"), "diplomat")), ("c", Opt(P("f32"), "diplomat")),
+                                 ("d", Opt(P("isize"), "diplomat")), ("e", Opt(P("i16"), "diplomat")), ("f", Opt(P("u64"), "diplomat"))]))
+    m.method("Op", "opt_prims_in", None, [("a", Opt(P("i8"), "std")), ("b", Opt(P("u16"), "std")), ("c", Opt(P("f32"), "std")), ("d", Opt(P("isize"), "diplomat")),
+                                         ("e", Opt(P("i32"), "std")), ("f", Opt(P("usize"), "diplomat")), ("g", Opt(P("DiplomatByte"), "std"))], Opt(P("i8"), "std"))
+    m.method("Op", "opt_prims_struct", None, [("s", StructT("OptPrims"))], StructT("OptPrims"))
+    m.method("Op", "opt_prims_make", None, [], StructT("OptPrims"))
     # Result / DiplomatResult pairs incl. unit arms
     combos = [("u8_en", P("u8"), EnumT("En")), ("st_u32", StructT("Pad"), P("u32")), ("unit_en", None, EnumT("En")), ("i16_unit", P("i16"), None),
               ("unit_unit", None, None), ("en_st", EnumT("Small"), StructT("Inner")), ("f32_i64", P("f32"), P("i64"))]
@@ -681,6 +691,8 @@ def m0_slices():
     m.method("Sl", "write_plain", "ref", [("n", P("i32")), ("w", Write())], None)
     m.method("Sl", "write_res", "ref", [("n", P("u8")), ("w", Write())], Res(None, EnumT("Er")))
     m.method("Sl", "write_opt", None, [("k", P("u16")), ("w", Write())], Opt(None))
+    m.method("Sl", "write_named", "ref", [("n", P("u8")), ("w", Write(named=True))], None)
+    m.method("Sl", "write_named_res", None, [("n", P("u8")), ("w", Write(named=True))], Res(None, EnumT("Er")))
     m.method("Sl", "new", None, [], OpaqueBox("Sl"))
     return m
 
